@@ -56,6 +56,27 @@ var contexts = []ctxDef{
 	{"CAttrMap", func(p *Call) *Program {
 		return scaffold(nil, nil, nil, []*Call{C("Payload", Fn(C("Attribute", S("x"), &Arg{K: "map", A: []*Arg{P("String"), P("String")}}, Fn(p))))})
 	}},
+	// attribute contexts by DATA TYPE of the attribute
+	{"CAttrArray", func(p *Call) *Program {
+		return scaffold(nil, nil, nil, []*Call{C("Payload", Fn(C("Attribute", S("x"), &Arg{K: "arr", A: []*Arg{P("String")}}, Fn(p))))})
+	}},
+	{"CAttrAny", func(p *Call) *Program {
+		return scaffold(nil, nil, nil, []*Call{C("Payload", Fn(C("Attribute", S("x"), P("Any"), Fn(p))))})
+	}},
+	{"CAttrUnion", func(p *Call) *Program {
+		return scaffold(nil, nil, nil, []*Call{C("Payload", Fn(C("OneOf", S("u"), Fn(C("Attribute", S("ua"), P("String")), p))))})
+	}},
+	{"CAttrUser", func(p *Call) *Program {
+		return scaffold(nil, nil, nil, []*Call{C("Payload", Fn(C("Attribute", S("x"), UT("GT"), Fn(p))))})
+	}},
+	{"CAttrResultType", func(p *Call) *Program {
+		return scaffold(nil, nil, nil, []*Call{C("Payload", Fn(C("Attribute", S("x"), UT("application/vnd.grt"), Fn(p))))})
+	}},
+	{"CAttrCollection", func(p *Call) *Program {
+		return scaffold(nil, nil, nil, []*Call{C("Payload", Fn(C("Attribute", S("x"), &Arg{K: "coll", A: []*Arg{UT("application/vnd.grt")}}, Fn(p))))})
+	}},
+	{"CResultUser", func(p *Call) *Program { return scaffold(nil, nil, nil, []*Call{C("Result", UT("GT"), Fn(p))}) }},
+	{"CBodyUser", func(p *Call) *Program { return scaffold(nil, nil, nil, ep(C("Body", UT("GT"), Fn(p)))) }},
 	{"CTypeBody", func(p *Call) *Program { return scaffold([]*Call{C("Type", S("T1"), Fn(p))}, nil, nil, nil) }},
 	{"CResultType", func(p *Call) *Program {
 		return scaffold([]*Call{C("ResultType", S("application/vnd.probe"), Fn(p))}, nil, nil, nil)
